@@ -3,14 +3,14 @@ package main
 import (
 	"go/constant"
 	"go/token"
+	"go/types"
 	"regexp"
 	"sort"
+	"strconv"
 	"strings"
 
 	"golang.org/x/tools/go/ssa"
 )
-
-type domInfo struct{}
 
 // ---------------------------------------------------------------------------
 // Instruction-granular reachability with cut edges and barrier instructions.
@@ -22,45 +22,404 @@ type Walk struct {
 	Fn      *ssa.Function
 	Cut     func(b *ssa.BasicBlock, succ int) bool // edge b -> b.Succs[succ] is not followed
 	Barrier func(in ssa.Instruction) bool          // the walk does not continue past such an instruction
+	Track   *EqTrack                               // optional: follow the possible constant values of one expression
+	E       *Eng                                   // needed with Track
+}
+
+// EqTrack follows, along each path, which constants an expression (named by its canonical
+// rendering) can still equal, given the equality tests passed so far: after ¬(x==A) and
+// ¬(x==B) in a three-valued domain only the rest remains.  Bit 0 stands for "any value not
+// compared against".
+type EqTrack struct {
+	Lhs  string
+	bits map[string]uint32
+}
+
+func (t *EqTrack) bit(k string) uint32 {
+	if t.bits == nil {
+		t.bits = map[string]uint32{}
+	}
+	if b, ok := t.bits[k]; ok {
+		return b
+	}
+	n := len(t.bits) + 1
+	if n > 31 {
+		return 1 // lumped with "other"
+	}
+	t.bits[k] = 1 << uint(n)
+	return t.bits[k]
+}
+
+// eqAtom parses "(lhs == const)" where const is a string or integer constant rendering.
+func eqAtom(atom string) (lhs, k string, ok bool) {
+	if len(atom) < 6 || atom[0] != '(' || atom[len(atom)-1] != ')' {
+		return "", "", false
+	}
+	in := atom[1 : len(atom)-1]
+	i := strings.LastIndex(in, " == ")
+	if i < 0 {
+		return "", "", false
+	}
+	lhs, k = in[:i], in[i+4:]
+	if k == "" {
+		return "", "", false
+	}
+	if k[0] == '"' {
+		if _, err := strconv.Unquote(k); err != nil {
+			return "", "", false
+		}
+		return lhs, k, true
+	}
+	if _, err := strconv.ParseInt(k, 10, 64); err == nil {
+		return lhs, k, true
+	}
+	return "", "", false
+}
+
+// refine updates the tracked mask by the literals an edge asserts; ok=false: the edge is infeasible.
+func (t *EqTrack) refine(m uint32, lits []Lit) (uint32, bool) {
+	for _, l := range lits {
+		for _, a := range []string{l.Atom, l.Alt} {
+			lhs, k, ok := eqAtom(a)
+			if !ok || lhs != t.Lhs {
+				continue
+			}
+			if l.Pos {
+				m &= t.bit(k)
+			} else {
+				m &^= t.bit(k)
+			}
+			break
+		}
+	}
+	return m, m != 0
 }
 
 type Reached struct {
 	Instr map[ssa.Instruction]bool
 	Edge  map[[2]int]bool // [from block index, to block index]
 	Block map[int]bool    // block entered at its first instruction
+	// Ctx: the phi contexts under which each block was entered (see pctx); nil entry = unknown
+	Ctx map[int][]pctx
+	// Mask: with Walk.Track, the union of the possible-value masks with which each block was entered
+	Mask map[int]uint32
+}
+
+// pctx is the path context of a walk: for the most recently entered blocks that
+// start with phis, the predecessor slot through which the block was entered
+// (oldest first).  It lets the walk decide branch conditions that are phis of
+// constants (results of a helper joined after its returns, "err" variables set
+// on some paths only) and resolve phis in returned values path-sensitively.
+const ctxMax = 6
+
+type pctx struct {
+	n    int8
+	blk  [ctxMax]int32
+	slot [ctxMax]int32
+}
+
+func (c pctx) with(b, slot, max int) pctx {
+	var o pctx
+	for i := 0; i < int(c.n); i++ {
+		if int(c.blk[i]) == b {
+			continue
+		}
+		o.blk[o.n], o.slot[o.n] = c.blk[i], c.slot[i]
+		o.n++
+	}
+	for int(o.n) >= max {
+		copy(o.blk[:], o.blk[1:])
+		copy(o.slot[:], o.slot[1:])
+		o.n--
+	}
+	o.blk[o.n], o.slot[o.n] = int32(b), int32(slot)
+	o.n++
+	return o
+}
+
+// get returns the slot recorded for block b if its entry is older than position before (-1: any).
+func (c pctx) get(b, before int) (slot, pos int, ok bool) {
+	if before == -2 {
+		return 0, 0, false
+	}
+	for i := 0; i < int(c.n); i++ {
+		if int(c.blk[i]) == b {
+			if before >= 0 && i >= before {
+				return 0, 0, false
+			}
+			if c.slot[i] < 0 {
+				return 0, 0, false
+			}
+			return int(c.slot[i]), i, true
+		}
+	}
+	return 0, 0, false
+}
+
+// resolveCtx follows phis whose incoming edge is fixed by the context.
+func resolveCtx(v ssa.Value, c pctx) ssa.Value {
+	before := -1
+	for k := 0; k < 8; k++ {
+		phi, ok := v.(*ssa.Phi)
+		if !ok {
+			return v
+		}
+		slot, pos, ok := c.get(phi.Block().Index, before)
+		if !ok || slot >= len(phi.Edges) {
+			return v
+		}
+		v = phi.Edges[slot]
+		before = pos
+	}
+	return v
+}
+
+var nonNilCtors = map[string]bool{"errors.New": true, "fmt.Errorf": true}
+
+func knownNonNil(v ssa.Value) bool {
+	switch x := v.(type) {
+	case *ssa.Alloc, *ssa.MakeInterface, *ssa.MakeClosure, *ssa.MakeMap, *ssa.MakeSlice, *ssa.MakeChan, *ssa.Function, *ssa.Global, *ssa.FieldAddr, *ssa.IndexAddr:
+		return true
+	case *ssa.Call:
+		return nonNilCtors[calleeName(&x.Call)]
+	case *ssa.Const:
+		return x.Value != nil
+	}
+	return false
+}
+
+// condOv: while a walk evaluates the cut of an edge, the phis inside the branch condition
+// that the path context fixes (a variable assigned on several paths is a phi; under the
+// context it is the expression assigned on this path).
+type condOv struct {
+	sub map[*ssa.Phi]ssa.Value
+	v   ssa.Value
+	neg bool
+}
+
+var condOverride *condOv
+
+// phiSubFor collects the phis in the expression tree of v that the context fixes.
+func phiSubFor(v ssa.Value, c pctx) map[*ssa.Phi]ssa.Value {
+	if c.n == 0 {
+		return nil
+	}
+	var sub map[*ssa.Phi]ssa.Value
+	seen := map[ssa.Value]bool{}
+	var fn *ssa.Function
+	if in, ok := v.(ssa.Instruction); ok {
+		fn = in.Parent()
+	}
+	var rec func(v ssa.Value, d int)
+	rec = func(v ssa.Value, d int) {
+		if v == nil || seen[v] || d > 10 {
+			return
+		}
+		seen[v] = true
+		if p, ok := v.(*ssa.Phi); ok {
+			if rv := resolveCtx(p, c); rv != ssa.Value(p) {
+				if sub == nil {
+					sub = map[*ssa.Phi]ssa.Value{}
+				}
+				sub[p] = rv
+				rec(rv, d+1)
+			}
+			return
+		}
+		if in, ok := v.(ssa.Instruction); ok && in.Parent() == fn {
+			switch v.(type) {
+			case *ssa.Alloc:
+				return
+			}
+			for _, op := range in.Operands(nil) {
+				if *op != nil {
+					rec(*op, d+1)
+				}
+			}
+		}
+	}
+	rec(v, 0)
+	return sub
+}
+
+// condAlternatives lists the expressions a branch condition can stand for: the condition
+// itself or, for a boolean joined from several paths, the non-constant joined expressions.
+func condAlternatives(v ssa.Value) []condOv {
+	var out []condOv
+	seen := map[ssa.Value]bool{}
+	var rec func(v ssa.Value, neg bool)
+	rec = func(v ssa.Value, neg bool) {
+		for {
+			if u, ok := v.(*ssa.UnOp); ok && u.Op == token.NOT {
+				neg = !neg
+				v = u.X
+				continue
+			}
+			break
+		}
+		if seen[v] {
+			return
+		}
+		seen[v] = true
+		if phi, ok := v.(*ssa.Phi); ok {
+			if b, isB := phi.Type().Underlying().(*types.Basic); isB && b.Info()&types.IsBoolean != 0 {
+				for _, ed := range phi.Edges {
+					if _, isK := ed.(*ssa.Const); isK {
+						continue
+					}
+					rec(ed, neg)
+				}
+				return
+			}
+		}
+		out = append(out, condOv{v: v, neg: neg})
+	}
+	rec(v, false)
+	return out
+}
+
+// evalCond decides a branch condition under a path context, if the context fixes it.
+func evalCond(v ssa.Value, c pctx) (val, known bool) {
+	neg := false
+	for {
+		if u, ok := v.(*ssa.UnOp); ok && u.Op == token.NOT {
+			neg = !neg
+			v = u.X
+			continue
+		}
+		break
+	}
+	out := func(b bool) (bool, bool) { return b != neg, true }
+	switch x := v.(type) {
+	case *ssa.Phi:
+		rv := resolveCtx(x, c)
+		if k, ok := rv.(*ssa.Const); ok && k.Value != nil && k.Value.Kind() == constant.Bool {
+			return out(constant.BoolVal(k.Value))
+		}
+	case *ssa.BinOp:
+		if x.Op != token.EQL && x.Op != token.NEQ {
+			return false, false
+		}
+		a, b := resolveCtx(x.X, c), resolveCtx(x.Y, c)
+		if a == x.X && b == x.Y {
+			return false, false // nothing was fixed by the context
+		}
+		ka, aok := a.(*ssa.Const)
+		kb, bok := b.(*ssa.Const)
+		eq, dec := false, false
+		switch {
+		case aok && bok:
+			if ka.Value == nil || kb.Value == nil {
+				if _, basic := ka.Type().Underlying().(*types.Basic); !basic {
+					eq, dec = ka.Value == nil && kb.Value == nil, true
+				}
+			} else if ka.Value.Kind() == kb.Value.Kind() && ka.Value.Kind() != constant.Unknown {
+				eq, dec = constant.Compare(ka.Value, token.EQL, kb.Value), true
+			}
+		case aok && ka.Value == nil && isNilable(ka.Type()) && knownNonNil(b):
+			eq, dec = false, true
+		case bok && kb.Value == nil && isNilable(kb.Type()) && knownNonNil(a):
+			eq, dec = false, true
+		}
+		if dec {
+			if x.Op == token.NEQ {
+				eq = !eq
+			}
+			return out(eq)
+		}
+	}
+	return false, false
+}
+
+func isNilable(t types.Type) bool {
+	switch t.Underlying().(type) {
+	case *types.Pointer, *types.Interface, *types.Map, *types.Slice, *types.Chan, *types.Signature:
+		return true
+	}
+	return false
+}
+
+func startsWithPhi(b *ssa.BasicBlock) bool {
+	if len(b.Instrs) == 0 {
+		return false
+	}
+	_, ok := b.Instrs[0].(*ssa.Phi)
+	return ok
+}
+
+// predSlot: the index in s.Preds of the edge from b, or -1 when ambiguous.
+func predSlot(b, s *ssa.BasicBlock) int {
+	slot := -1
+	for j, p := range s.Preds {
+		if p == b {
+			if slot >= 0 {
+				return -1
+			}
+			slot = j
+		}
+	}
+	return slot
 }
 
 func (w *Walk) run(startBlocks []*ssa.BasicBlock, startIdx []int) *Reached {
-	r := &Reached{Instr: map[ssa.Instruction]bool{}, Edge: map[[2]int]bool{}, Block: map[int]bool{}}
+	// full path contexts first; shallower ones when the function has too many phi joins
+	for _, depth := range []int{ctxMax, 3, 1} {
+		if r := w.runMode(startBlocks, startIdx, depth); r != nil {
+			return r
+		}
+	}
+	panic("walk: state space exhausted in " + fnName(w.Fn))
+}
+
+func (w *Walk) runMode(startBlocks []*ssa.BasicBlock, startIdx []int, depth int) *Reached {
+	r := &Reached{Instr: map[ssa.Instruction]bool{}, Edge: map[[2]int]bool{}, Block: map[int]bool{}, Ctx: map[int][]pctx{}, Mask: map[int]uint32{}}
 	type pt struct {
-		b    *ssa.BasicBlock
-		i    int
-		only int // -1: all successors; 0/1: only that successor (condition is a phi constant for the edge taken)
+		b *ssa.BasicBlock
+		i int
+		c pctx
+		m uint32
+	}
+	type sk struct {
+		b int
+		c pctx
+		m uint32
 	}
 	var work []pt
 	for k, b := range startBlocks {
-		work = append(work, pt{b, startIdx[k], -1})
+		work = append(work, pt{b, startIdx[k], pctx{}, ^uint32(0)})
 	}
-	seenChoice := map[[2]int]bool{}
+	seen := map[sk]bool{}
+	midSeen := map[ssa.Instruction]bool{}
+	states := 0
 	for len(work) > 0 {
 		p := work[len(work)-1]
 		work = work[:len(work)-1]
 		if p.i == 0 {
-			ck := [2]int{p.b.Index, p.only}
-			if seenChoice[ck] || seenChoice[[2]int{p.b.Index, -1}] {
+			k := sk{p.b.Index, p.c, p.m}
+			if seen[k] {
 				continue
 			}
-			seenChoice[ck] = true
+			seen[k] = true
+			states++
+			if states > 6000 && depth > 1 {
+				return nil
+			}
 			r.Block[p.b.Index] = true
+			r.Ctx[p.b.Index] = append(r.Ctx[p.b.Index], p.c)
+			r.Mask[p.b.Index] |= p.m
+		} else {
+			r.Mask[p.b.Index] |= p.m
+			if p.i < len(p.b.Instrs) {
+				if midSeen[p.b.Instrs[p.i]] {
+					continue
+				}
+				midSeen[p.b.Instrs[p.i]] = true
+			}
+			r.Ctx[p.b.Index] = append(r.Ctx[p.b.Index], p.c)
 		}
 		stopped := false
 		for i := p.i; i < len(p.b.Instrs); i++ {
 			in := p.b.Instrs[i]
-			if r.Instr[in] && p.i != 0 {
-				// already walked from here
-				stopped = true
-				break
-			}
 			r.Instr[in] = true
 			if w.Barrier != nil && w.Barrier(in) {
 				stopped = true
@@ -70,61 +429,69 @@ func (w *Walk) run(startBlocks []*ssa.BasicBlock, startIdx []int) *Reached {
 		if stopped {
 			continue
 		}
+		only := -1
+		if len(p.b.Instrs) > 0 {
+			if iff, ok := p.b.Instrs[len(p.b.Instrs)-1].(*ssa.If); ok {
+				if v, known := evalCond(iff.Cond, p.c); known {
+					if v {
+						only = 0
+					} else {
+						only = 1
+					}
+				}
+			}
+		}
+		var ov *condOv
+		if len(p.b.Instrs) > 0 {
+			if iff, ok := p.b.Instrs[len(p.b.Instrs)-1].(*ssa.If); ok {
+				if sub := phiSubFor(iff.Cond, p.c); sub != nil {
+					ov = &condOv{sub: sub}
+				}
+			}
+		}
 		for si, s := range p.b.Succs {
-			if p.only >= 0 && si != p.only {
+			if only >= 0 && si != only {
 				continue
 			}
-			if w.Cut != nil && w.Cut(p.b, si) {
-				continue
+			if w.Cut != nil {
+				// the edge asserts its condition both as written and as resolved on this path
+				cut := w.Cut(p.b, si)
+				if !cut && ov != nil {
+					condOverride = ov
+					cut = w.Cut(p.b, si)
+					condOverride = nil
+				}
+				if cut {
+					continue
+				}
+			}
+			nm := p.m
+			if w.Track != nil && w.E != nil {
+				var lits []Lit
+				if l, ok := w.E.EdgeLit(p.b, si); ok {
+					lits = append(lits, l)
+				}
+				if ov != nil {
+					condOverride = ov
+					if l, ok := w.E.EdgeLit(p.b, si); ok {
+						lits = append(lits, l)
+					}
+					condOverride = nil
+				}
+				var feasible bool
+				if nm, feasible = w.Track.refine(nm, lits); !feasible {
+					continue
+				}
 			}
 			r.Edge[[2]int{p.b.Index, s.Index}] = true
-			work = append(work, pt{s, 0, phiConstChoice(p.b, s)})
+			nc := p.c
+			if startsWithPhi(s) {
+				nc = p.c.with(s.Index, predSlot(p.b, s), depth)
+			}
+			work = append(work, pt{s, 0, nc, nm})
 		}
 	}
 	return r
-}
-
-// phiConstChoice: if block s ends in an If whose condition is a phi of s that
-// has a constant boolean for the edge from p, the successor index that will be
-// taken (0 for true, 1 for false); otherwise -1.
-func phiConstChoice(p, s *ssa.BasicBlock) int {
-	if len(s.Instrs) == 0 {
-		return -1
-	}
-	iff, ok := s.Instrs[len(s.Instrs)-1].(*ssa.If)
-	if !ok {
-		return -1
-	}
-	neg := false
-	c := iff.Cond
-	for {
-		if u, ok := c.(*ssa.UnOp); ok && u.Op == token.NOT {
-			neg = !neg
-			c = u.X
-			continue
-		}
-		break
-	}
-	phi, ok := c.(*ssa.Phi)
-	if !ok || phi.Block() != s {
-		return -1
-	}
-	for i, pred := range s.Preds {
-		if pred == p {
-			if k, ok := phi.Edges[i].(*ssa.Const); ok && k.Value != nil && k.Value.Kind() == constant.Bool {
-				v := constant.BoolVal(k.Value)
-				if neg {
-					v = !v
-				}
-				if v {
-					return 0
-				}
-				return 1
-			}
-			return -1
-		}
-	}
-	return -1
 }
 
 // FromEntry walks from the function entry.
@@ -187,7 +554,7 @@ func L(atom string, pos bool) LitM {
 	if !pos {
 		d = "¬" + atom
 	}
-	return LitM{d, func(l Lit) bool { return l.Atom == atom && l.Pos == pos }}
+	return LitM{d, func(l Lit) bool { return (l.Atom == atom || l.Alt == atom) && l.Pos == pos }}
 }
 
 // LRe matches literals whose atom matches the (anchored) regular expression.
@@ -197,7 +564,7 @@ func LRe(re string, pos bool) LitM {
 	if !pos {
 		d = "¬" + d
 	}
-	return LitM{d, func(l Lit) bool { return l.Pos == pos && rx.MatchString(l.Atom) }}
+	return LitM{d, func(l Lit) bool { return l.Pos == pos && (rx.MatchString(l.Atom) || l.Alt != "" && rx.MatchString(l.Alt)) }}
 }
 
 // LHas matches literals whose atom contains all the given substrings.
@@ -210,17 +577,21 @@ func LHas(pos bool, subs ...string) LitM {
 		if l.Pos != pos {
 			return false
 		}
+		ok1, ok2 := true, l.Alt != ""
 		for _, s := range subs {
 			if !strings.Contains(l.Atom, s) {
-				return false
+				ok1 = false
+			}
+			if !strings.Contains(l.Alt, s) {
+				ok2 = false
 			}
 		}
-		return true
+		return ok1 || ok2
 	}}
 }
 
 func (m LitM) Neg() LitM {
-	return LitM{"not(" + m.Desc + ")", func(l Lit) bool { return m.F(Lit{l.Atom, !l.Pos}) }}
+	return LitM{"not(" + m.Desc + ")", func(l Lit) bool { return m.F(Lit{Atom: l.Atom, Pos: !l.Pos, Alt: l.Alt}) }}
 }
 
 // EdgeLit returns the literal asserted by edge b->Succs[succ], if b ends in an If.
@@ -232,11 +603,41 @@ func (e *Eng) EdgeLit(b *ssa.BasicBlock, succ int) (Lit, bool) {
 	if !ok {
 		return Lit{}, false
 	}
-	l := e.CondLit(b.Parent(), iff.Cond)
+	var l Lit
+	if ov := condOverride; ov != nil && ov.sub != nil {
+		curPhiSub = ov.sub
+		l = e.CondLit(b.Parent(), iff.Cond)
+		curPhiSub = nil
+	} else {
+		l = e.CondLit(b.Parent(), iff.Cond)
+	}
 	if succ == 1 {
 		l.Pos = !l.Pos
 	}
 	return l, true
+}
+
+// EdgeLits returns every literal edge b->Succs[succ] can assert (see condAlternatives).
+func (e *Eng) EdgeLits(b *ssa.BasicBlock, succ int) []Lit {
+	if len(b.Instrs) == 0 {
+		return nil
+	}
+	iff, ok := b.Instrs[len(b.Instrs)-1].(*ssa.If)
+	if !ok {
+		return nil
+	}
+	var out []Lit
+	for _, a := range condAlternatives(iff.Cond) {
+		l := e.CondLit(b.Parent(), a.v)
+		if a.neg {
+			l.Pos = !l.Pos
+		}
+		if succ == 1 {
+			l.Pos = !l.Pos
+		}
+		out = append(out, l)
+	}
+	return out
 }
 
 // CutLits returns a Cut function removing every edge that asserts a literal matched by any of ms.
@@ -256,17 +657,54 @@ func (e *Eng) CutLits(ms ...LitM) func(b *ssa.BasicBlock, succ int) bool {
 }
 
 // CutContradicting removes every edge whose literal contradicts one of the given
-// assumptions (i.e. asserts the negation of a matched literal).
+// assumptions: it asserts the negation of a matched literal, or it asserts x == k1 while
+// an assumption matches x == k2 for a different constant k2.
 func (e *Eng) CutContradicting(assume ...LitM) func(b *ssa.BasicBlock, succ int) bool {
+	eqCache := map[*ssa.Function]map[string]map[string]bool{}
+	assumedEq := func(fn *ssa.Function) map[string]map[string]bool {
+		if m, ok := eqCache[fn]; ok {
+			return m
+		}
+		m := map[string]map[string]bool{}
+		for _, b := range fn.Blocks {
+			for _, l := range e.EdgeLits(b, 0) {
+				for _, a := range []string{l.Atom, l.Alt} {
+					lhs, k, ok := eqAtom(a)
+					if !ok {
+						continue
+					}
+					for _, am := range assume {
+						if am.F(Lit{Atom: a, Pos: true}) {
+							if m[lhs] == nil {
+								m[lhs] = map[string]bool{}
+							}
+							m[lhs][k] = true
+						}
+					}
+				}
+			}
+		}
+		eqCache[fn] = m
+		return m
+	}
 	return func(b *ssa.BasicBlock, succ int) bool {
 		l, ok := e.EdgeLit(b, succ)
 		if !ok {
 			return false
 		}
-		nl := Lit{l.Atom, !l.Pos}
+		nl := Lit{Atom: l.Atom, Pos: !l.Pos, Alt: l.Alt}
 		for _, m := range assume {
 			if m.F(nl) {
 				return true
+			}
+		}
+		if l.Pos {
+			for _, a := range []string{l.Atom, l.Alt} {
+				if lhs, k, ok := eqAtom(a); ok {
+					if ks := assumedEq(b.Parent())[lhs]; len(ks) > 0 && !ks[k] {
+						return true
+					}
+				}
 			}
 		}
 		return false
@@ -278,19 +716,58 @@ func (e *Eng) CountLitEdges(fn *ssa.Function, m LitM) int {
 	n := 0
 	for _, b := range fn.Blocks {
 		for si := range b.Succs {
-			if l, ok := e.EdgeLit(b, si); ok && m.F(l) {
-				n++
+			for _, l := range e.EdgeLits(b, si) {
+				if m.F(l) {
+					n++
+					break
+				}
 			}
 		}
 	}
+	// a returned condition is a branch on it ("return a && b")
+	for _, l := range e.retLits(fn) {
+		if m.F(l) || m.F(Lit{Atom: l.Atom, Alt: l.Alt, Pos: !l.Pos}) {
+			n++
+		}
+	}
 	return n
+}
+
+// retLits: the literals of the non-constant boolean values fn returns.
+func (e *Eng) retLits(fn *ssa.Function) []Lit {
+	var out []Lit
+	for _, b := range fn.Blocks {
+		if len(b.Instrs) == 0 {
+			continue
+		}
+		ret, ok := b.Instrs[len(b.Instrs)-1].(*ssa.Return)
+		if !ok {
+			continue
+		}
+		for _, rv := range ret.Results {
+			if bt, ok := rv.Type().Underlying().(*types.Basic); !ok || bt.Info()&types.IsBoolean == 0 {
+				continue
+			}
+			for _, a := range condAlternatives(rv) {
+				if _, isK := a.v.(*ssa.Const); isK {
+					continue
+				}
+				l := e.CondLit(fn, a.v)
+				if a.neg {
+					l.Pos = !l.Pos
+				}
+				out = append(out, l)
+			}
+		}
+	}
+	return out
 }
 
 // LitsOf lists all literals asserted by edges of fn (for diagnostics).
 func (e *Eng) LitsOf(fn *ssa.Function) []string {
 	set := map[string]bool{}
 	for _, b := range fn.Blocks {
-		if l, ok := e.EdgeLit(b, 0); ok {
+		for _, l := range e.EdgeLits(b, 0) {
 			set[l.Atom] = true
 		}
 	}
@@ -304,9 +781,64 @@ func (e *Eng) LitsOf(fn *ssa.Function) []string {
 
 // OnlyUnder reports whether instruction target can be reached from entry only
 // through an edge asserting one of ms (i.e. target is guarded by the disjunction of ms).
+// When the literals are equalities of one expression with constants, the guard may also be
+// established by exclusion (the paths reaching the target have ruled out every other constant
+// the expression is compared with, and it was compared at all).
 func (e *Eng) OnlyUnder(target ssa.Instruction, ms ...LitM) bool {
-	w := &Walk{Fn: target.Parent(), Cut: e.CutLits(ms...)}
-	return !w.FromEntry().Has(target)
+	fn := target.Parent()
+	w := &Walk{Fn: fn, Cut: e.CutLits(ms...)}
+	if !w.FromEntry().Has(target) {
+		return true
+	}
+	groups := map[string]map[string]bool{}
+	for _, b := range fn.Blocks {
+		for _, l := range e.EdgeLits(b, 0) {
+			for _, a := range []string{l.Atom, l.Alt} {
+				lhs, k, ok := eqAtom(a)
+				if !ok {
+					continue
+				}
+				for _, m := range ms {
+					if m.F(Lit{Atom: a, Pos: true}) {
+						if groups[lhs] == nil {
+							groups[lhs] = map[string]bool{}
+						}
+						groups[lhs][k] = true
+					}
+				}
+			}
+		}
+	}
+	for lhs, ks := range groups {
+		tr := &EqTrack{Lhs: lhs}
+		var allowed uint32
+		for k := range ks {
+			allowed |= tr.bit(k)
+		}
+		plain := e.CutLits(ms...)
+		cut := func(b *ssa.BasicBlock, succ int) bool {
+			// edges asserting one of the other (non-equality) disjuncts justify the target as before
+			if !plain(b, succ) {
+				return false
+			}
+			if l, ok := e.EdgeLit(b, succ); ok {
+				for _, a := range []string{l.Atom, l.Alt} {
+					if l2, _, ok := eqAtom(a); ok && l2 == lhs {
+						return false
+					}
+				}
+			}
+			return true
+		}
+		r := (&Walk{Fn: fn, Cut: cut, Track: tr, E: e}).FromEntry()
+		if !r.Has(target) {
+			return true
+		}
+		if m := r.Mask[target.Block().Index]; m&^allowed == 0 {
+			return true
+		}
+	}
+	return false
 }
 
 // ---------------------------------------------------------------------------
@@ -428,20 +960,46 @@ func (e *Eng) ArgV(ci ssa.CallInstruction, i int) ssa.Value {
 }
 
 // RetVals resolves the possible values of result idx of ret given what was
-// reached: phis only contribute edges that were actually traversed.
+// reached: phis only contribute edges that were actually traversed, and phis
+// fixed by the path context only the edge of that path.
 func (e *Eng) RetVals(r *Reached, ret *ssa.Return, idx int) []ssa.Value {
 	if idx >= len(ret.Results) {
 		return nil
 	}
-	return e.ValsUnder(r, ret.Results[idx])
+	return e.ValsAt(r, ret, ret.Results[idx])
+}
+
+// ValsAt expands v as seen at instruction at, under each path context in which at was reached.
+func (e *Eng) ValsAt(r *Reached, at ssa.Instruction, v ssa.Value) []ssa.Value {
+	if r == nil || at == nil || at.Block() == nil {
+		return e.ValsUnder(r, v)
+	}
+	cs := r.Ctx[at.Block().Index]
+	if len(cs) == 0 || len(cs) > 256 {
+		return e.ValsUnder(r, v)
+	}
+	var out []ssa.Value
+	seen := map[ssa.Value]bool{}
+	for _, c := range cs {
+		c := c
+		for _, x := range e.valsUnder(r, v, &c) {
+			if !seen[x] {
+				seen[x] = true
+				out = append(out, x)
+			}
+		}
+	}
+	return out
 }
 
 // ValsUnder expands phis (and single-assignment boxes) of v under the reached edges.
-func (e *Eng) ValsUnder(r *Reached, v ssa.Value) []ssa.Value {
+func (e *Eng) ValsUnder(r *Reached, v ssa.Value) []ssa.Value { return e.valsUnder(r, v, nil) }
+
+func (e *Eng) valsUnder(r *Reached, v ssa.Value, c *pctx) []ssa.Value {
 	var out []ssa.Value
 	seen := map[ssa.Value]bool{}
-	var rec func(v ssa.Value)
-	rec = func(v ssa.Value) {
+	var rec func(v ssa.Value, before int)
+	rec = func(v ssa.Value, before int) {
 		if seen[v] {
 			return
 		}
@@ -449,10 +1007,16 @@ func (e *Eng) ValsUnder(r *Reached, v ssa.Value) []ssa.Value {
 		switch v := v.(type) {
 		case *ssa.Phi:
 			b := v.Block()
+			if c != nil {
+				if slot, pos, ok := c.get(b.Index, before); ok && slot < len(v.Edges) {
+					rec(v.Edges[slot], pos)
+					return
+				}
+			}
 			for i, ed := range v.Edges {
 				p := b.Preds[i]
 				if r == nil || r.Edge[[2]int{p.Index, b.Index}] {
-					rec(ed)
+					rec(ed, -2)
 				}
 			}
 			return
@@ -465,7 +1029,7 @@ func (e *Eng) ValsUnder(r *Reached, v ssa.Value) []ssa.Value {
 						// only stores that were reached count
 						if r == nil || r.Instr[st] {
 							n++
-							rec(st.Val)
+							rec(st.Val, -2)
 						}
 					}
 					if n > 0 {
@@ -474,15 +1038,15 @@ func (e *Eng) ValsUnder(r *Reached, v ssa.Value) []ssa.Value {
 				}
 			}
 		case *ssa.MakeInterface:
-			rec(v.X)
+			rec(v.X, before)
 			return
 		case *ssa.ChangeType:
-			rec(v.X)
+			rec(v.X, before)
 			return
 		}
 		out = append(out, v)
 	}
-	rec(v)
+	rec(v, -1)
 	return out
 }
 
@@ -512,7 +1076,7 @@ func InstrDominates(a, b ssa.Instruction) bool {
 			}
 		}
 	}
-	return a.Block().Dominates(b.Block())
+	return dominates(a.Block(), b.Block())
 }
 
 // ---------------------------------------------------------------------------
